@@ -934,8 +934,8 @@ def analyse_to_angle(ctx: Any, rule: str, relpath: str, qual: str, body: List[as
         return None
     interp = PolyInterp(ROLES.get, rename, branch=branch, filename=relpath, call_hook=hook)
     paths = interp.run(body)
-    if len(paths) != 2:
-        raise AnalysisError(f'{qual}: expected exactly two paths (normal / gimbal), got {len(paths)}')
+    if len(paths) < 2 or len(paths) > 6 or sum(1 for p_ in paths if p_.guards and p_.guards[0][1]) != 1:
+        raise AnalysisError(f'{qual}: expected one normal path and at least one gimbal path, got {len(paths)} paths')
     mp = {f'M_{s}': FA[s] for s in SLOTS}
     summary: Dict[str, Any] = {}
     kw = dict(file=relpath, func=qual) if mod is None else dict(func=qual)
@@ -947,9 +947,13 @@ def analyse_to_angle(ctx: Any, rule: str, relpath: str, qual: str, body: List[as
             return ('sqrt', nf(v.args[0].subst(mp)))
         return v
     cP, sP, cY, sY, cR, sR = (Poly.sym(x) for x in ('cP', 'sP', 'cY', 'sY', 'cR', 'sR'))
+    n_gimbal = 0
     for pth in paths:
         normal = pth.guards[0][1]
-        tag = 'normal' if normal else 'gimbal'
+        if not normal:
+            n_gimbal += 1
+        # further tests inside the gimbal branch split it into several paths: every one of them is a gimbal path and owes the same
+        tag = 'normal' if normal else ('gimbal' if n_gimbal == 1 else f'gimbal#{n_gimbal} (under `{U(tests[len(pth.guards) - 1])[:40]}` = {pth.guards[-1][1]})')
         for ang_name, key in fields.items():
             val = pth.env.get(key)
             label = f'{tag} {ang_name}'
@@ -991,7 +995,7 @@ def analyse_to_angle(ctx: Any, rule: str, relpath: str, qual: str, body: List[as
     # or its square with 0.001**2
     th_ok = False
     th_desc = 'unrecognised'
-    if len(tests) == 1 and isinstance(tests[0], ast.Compare) and len(tests[0].ops) == 1 and isinstance(tests[0].ops[0], ast.Gt) \
+    if len(tests) >= 1 and isinstance(tests[0], ast.Compare) and len(tests[0].ops) == 1 and isinstance(tests[0].ops[0], ast.Gt) \
             and isinstance(tests[0].comparators[0], ast.Constant):
         cval = float(tests[0].comparators[0].value)
         lhs = subst(interp.ev(tests[0].left, dict(paths[0].env)))
@@ -1010,6 +1014,7 @@ def analyse_to_angle(ctx: Any, rule: str, relpath: str, qual: str, body: List[as
 
 
 MUTANTS = [
+    {'id': 'gimbal_yaw_from_forward_axis_near_pole', 'file': 'math.py', 'find': "            ang._yaw = math.degrees(math.atan2(-left_x, left_y)) % 360.0 % 360.0\n", 'replace': "            if horiz_dist > 1e-9:\n                ang._yaw = math.degrees(math.atan2(for_y, for_x)) % 360.0 % 360.0\n            else:\n                ang._yaw = math.degrees(math.atan2(-left_x, left_y)) % 360.0 % 360.0\n", 'expect': 'C04.A5'},
     {'id': 'vec_rot_skips_near_origin', 'file': 'math.py', 'find': "    def _vec_rot(self, vec: 'Vec') -> None:", 'replace': "    def _vec_rot(self, vec: 'Vec') -> None:\n        if vec == (0.0, 0.0, 0.0):\n            return", 'expect': 'C04.A3'},
     {'id': 'to_angle_pitch_by_asin', 'file': 'math.py', 'find': "        if horiz_dist > 0.001:\n            ang._yaw = math.degrees(math.atan2(for_y, for_x)) % 360.0 % 360.0\n            ang._pitch = math.degrees(math.atan2(-for_z, horiz_dist)) % 360.0 % 360.0", 'replace': "        if horiz_dist > 0.001:\n            ang._yaw = math.degrees(math.atan2(for_y, for_x)) % 360.0 % 360.0\n            ang._pitch = math.degrees(math.asin(-for_z)) % 360.0 % 360.0", 'expect': 'C04.A5'},
     {'id': 'imatmul_staged_pitch_backwards', 'file': 'math.py', 'find': '            self._mat_mul(Py_Matrix.from_angle(other))\n', 'replace': '            if other._roll != 0.0:\n                rad = math.radians(other._roll)\n                cos, sin = math.cos(rad), math.sin(rad)\n                self._ab, self._ac = self._ab * cos - self._ac * sin, self._ab * sin + self._ac * cos\n                self._bb, self._bc = self._bb * cos - self._bc * sin, self._bb * sin + self._bc * cos\n                self._cb, self._cc = self._cb * cos - self._cc * sin, self._cb * sin + self._cc * cos\n            if other._pitch != 0.0:\n                rad = math.radians(other._pitch)\n                cos, sin = math.cos(rad), math.sin(rad)\n                self._aa, self._ac = self._aa * cos - self._ac * sin, self._aa * sin + self._ac * cos\n                self._ba, self._bc = self._ba * cos - self._bc * sin, self._ba * sin + self._bc * cos\n                self._ca, self._cc = self._ca * cos - self._cc * sin, self._ca * sin + self._cc * cos\n            if other._yaw != 0.0:\n                rad = math.radians(other._yaw)\n                cos, sin = math.cos(rad), math.sin(rad)\n                self._aa, self._ab = self._aa * cos - self._ab * sin, self._aa * sin + self._ab * cos\n                self._ba, self._bb = self._ba * cos - self._bb * sin, self._ba * sin + self._bb * cos\n                self._ca, self._cb = self._ca * cos - self._cb * sin, self._ca * sin + self._cb * cos\n', 'expect': 'C04.A4'},
